@@ -182,10 +182,13 @@ def d2(chk, prog):
                     used.append(tag)
                     return Term.sym(f"EST{len(used)}")
                 return f
-            model.ext["pd.Series.mean"] = rec("pd.Series.mean")
-            model.ext["pd.Series.median"] = rec("pd.Series.median")
-            model.prims["cnvlib.descriptives.modal_location"] = rec("descriptives.modal_location")
-            model.prims["cnvlib.descriptives.biweight_location"] = rec("descriptives.biweight_location")
+            # every reducer a name could be bound to records itself: the Series reducers and all public functions of cnvlib.descriptives
+            for red in ("mean", "median", "max", "min", "std", "var", "sum", "mode", "mad"):
+                model.ext[f"pd.Series.{red}"] = rec(f"pd.Series.{red}")
+                model.ext[f"np.{red}"] = rec(f"np.{red}")
+            for fname, ffi in prog.module("cnvlib.descriptives").functions.items():
+                if not fname.startswith("_") and ffi.parent is None:
+                    model.prims[f"cnvlib.descriptives.{fname}"] = rec(f"descriptives.{fname}")
             g, _ = table("chr", None, False)
             it = Interp(prog, model)
             kw = dict(by_chrom=by_chrom)
